@@ -52,7 +52,7 @@ def replay_harness(ctx, casefile, toks):
     return 1, "no replay for this kind"
 
 
-OPN = {1: 3, 10: 3, 2: 2, 3: 2, 5: 2, 4: 5, 6: 3, 8: 4, 9: 1, 11: 3, 12: 4}
+OPN = {1: 3, 10: 3, 2: 2, 3: 2, 5: 2, 4: 5, 6: 3, 8: 4, 9: 1, 11: 3, 12: 4, 13: 3, 14: 2}
 ST = {6: "Connect-returned-nil", 0: "runnable?", 1: "waiting-for-direct", 2: "in-OpenStream(conn %d)", 3: "in-dialPeer", 4: "OK(conn %d)", 5: "ERR(%d)"}
 ERR = {1: "ErrNoConn", 2: "ErrLimitedConn", 3: "ctx", 4: "open-failed", 5: "ErrNoAddresses", 6: "ErrNoGoodAddresses",
        7: "ErrAllDialsFailed", 8: "max-dial-attempts"}
@@ -89,8 +89,10 @@ def parse_swarm(t):
 
 def op_str(op):
     c = op[0]
-    if c in (1, 10):
-        return "conn arrives%s(limited=%d proxy=%d)" % (" already-closed " if c == 10 else " ", op[1], op[2])
+    if c in (1, 10, 13):
+        return "conn arrives%s(limited=%d proxy=%d)" % ({10: " already-closed ", 13: " with a blocking Connected handler "}.get(c, " "), op[1], op[2])
+    if c == 14:
+        return "Connected handler of conn %d returns" % op[1]
     if c == 2:
         return "conn %d reports closed" % op[1]
     if c == 3:
@@ -165,6 +167,7 @@ CLAUSES = {1: "a call returned a connection it must not get (stream over a limit
            5: "Connectedness answer wrong (only limited conns must give Limited; Connected needs a non-limited conn)",
            6: "a force-direct dial was handed a relay address",
            9: "a NewStream call was answered ErrLimitedConn although no direct connection had just arrived (it must wait instead)",
+           11: "a call is still waiting for a direct connection although a usable non-limited connection is listed",
            10: "a force-direct BasicHost.Connect reported success although no connection over a non-proxy transport exists"}
 
 
